@@ -674,7 +674,12 @@ func (w *_builderRepr) Build() datamodel.Node {
 }
 
 func (w *_builderRepr) Reset() {
-	panic("bindnode TODO: Reset")
+	// A fresh Go value: the node that has been built keeps the previous one.
+	*w = _builderRepr{_assemblerRepr{
+		cfg:        w.cfg,
+		schemaType: w.schemaType,
+		val:        reflect.New(w.val.Type()).Elem(),
+	}}
 }
 
 type _assemblerRepr struct {
